@@ -3,7 +3,7 @@
 # Runs the monitors from /verif/harness's CURRENT sources against a scratch worktree (/tmp/wt_clean)
 # so that /repo is not touched. Not part of the registered checks.
 patch=$1; shift; [ "$patch" != none ] && patch=$(readlink -f "$patch")
-rsync -a --delete --exclude target --exclude Cargo.toml /verif/harness/ /tmp/hdev/
+rsync -a --delete --exclude target --exclude Cargo.toml ${DEVSRC:-/verif/harness}/ /tmp/hdev/
 cd /tmp/wt_clean && git checkout -q -- . && git clean -fdq
 [ "$patch" != none ] && { git apply "$patch" || exit 3; }
 cd /tmp/hdev && CARGO_TARGET_DIR=/verif/build/harness_dev cargo build --release --offline --bin cv 2>&1 | grep -E "^error" -A5
